@@ -298,6 +298,8 @@ def check_explicit_reference(run, A):
 
 def check(run):
     A = run.A
+    from ..opt import check_axisless_squeeze
+    check_axisless_squeeze(run, A, ('pb_bss.extraction.beamformer', 'pb_bss.math.solve'))
     from ..opt import check_optional_truthiness, check_params_reach, check_forwarding, check_stale_loop_variables, check_argument_names
     check_argument_names(run, A, ('pb_bss.extraction.beamformer', 'pb_bss.math.solve'))
     check_stale_loop_variables(run, A, ('pb_bss.extraction.beamformer', 'pb_bss.math.solve'))
